@@ -678,7 +678,8 @@ class Terminal:
                 i += 8
                 for er in range(e):
                     idx, subidx, k1, k2, bits, = unpack_from("<HBBBB2x", s, i)
-                    yield idx, subidx, bits
+                    if sm >= 0:  # 0xff: PDO not assigned to a sync manager
+                        yield idx, subidx, bits
                     i += 8
 
         async def parse_sdo(index):
